@@ -302,6 +302,10 @@ def jobs_for(t):
             add(g, events(g.nodes, 3, 2, stride=1))
         for g in family(3, labellings=("fwd",), n_min=3):
             add(g, events(g.nodes, 2, 1))
+        # a seed-chosen slice of the 4-node classes (bugs that need a chain of three plus a confounded or extra node)
+        for i, g in enumerate(family(4, labellings=("fwd",), n_min=4)):
+            if max(len(g.parents(n)) for n in g.nodes) <= 2 and i % 240 == seed() % 240:
+                add(g, events(g.nodes, 2, 1, stride=3, offset=seed()))
         for name in ("fig9", "frontdoor", "napkin", "bow"):
             g = CURATED[name]
             add(g, events(g.nodes, 1, 2))
